@@ -1,0 +1,338 @@
+//! Verification hooks. Compiled only with the cargo feature `verif`; with the feature off nothing in this
+//! module (or any of its call sites) exists. The hooks only *observe*: schedule points hand control to a
+//! callback installed by an external harness, events are handed to a sink installed by the harness, and
+//! accessors take the same locks the structures themselves use.
+use std::hash::Hash;
+use std::sync::Arc;
+use std::sync::atomic::{AtomicBool, AtomicU64, Ordering};
+use std::time::SystemTime;
+
+use parking_lot::RwLock;
+
+use crate::cache::buffer_event::{BufferConsumer, BufferEvent};
+use crate::cache::command::acknowledgement::{CommandAcknowledgement, CommandAcknowledgementHandle};
+use crate::cache::command::CommandStatus;
+use crate::cache::expiration::config::TTLConfig;
+use crate::cache::expiration::TTLTicker;
+use crate::cache::key_description::KeyDescription;
+use crate::cache::lfu::doorkeeper::DoorKeeper;
+use crate::cache::lfu::frequency_counter::FrequencyCounter;
+use crate::cache::lfu::tiny_lfu::TinyLFU;
+use crate::cache::policy::admission_policy::AdmissionPolicy;
+use crate::cache::policy::config::CacheWeightConfig;
+use crate::cache::pool::{BufferSize, Pool, PoolSize};
+use crate::cache::stats::ConcurrentStatsCounter;
+use crate::cache::clock::ClockType;
+use crate::cache::types::{FrequencyEstimate, KeyHash, TotalCounters, Weight};
+
+/// A named place in the code at which the harness may inject a yield, a delay or a gate.
+#[derive(Copy, Clone, Debug, PartialEq, Eq, Hash, PartialOrd, Ord)]
+pub enum Site {
+    PutAfterPresenceCheck,
+    UpsertAfterStoreUpdate,
+    UpsertBeforeSend,
+    DeleteAfterMark,
+    SendBefore,
+    SendAfter,
+    WorkerDequeued,
+    WorkerAfterStoreInsert,
+    WorkerDeleteAfterStore,
+    WorkerBeforeAck,
+    WorkerAfterAck,
+    AckDoneBetweenStores,
+    AckDoneBeforeWake,
+    AckPollAfterRegister,
+    AdmissionAfterSpaceCheck,
+    AdmissionAfterEvict,
+    WeightAddBetween,
+    WeightUpdateHoldingEntry,
+    WeightDeleteAfterRemove,
+    WeightDeleteHoldingTotal,
+    SweepBeforeRetain,
+    SweepBeforeEvict,
+    SweepDone,
+    PoolBeforeAdd,
+    PoolBeforeAccept,
+    ConsumerBeforeApply,
+    ConsumerApplied,
+    ShutdownAfterFlag,
+    ShutdownAfterSend,
+    ShutdownAfterPolicy,
+    ShutdownBeforeClear,
+}
+
+#[derive(Copy, Clone, Debug, PartialEq, Eq, Hash)]
+pub enum Role {
+    Worker,
+    Consumer,
+    Sweeper,
+}
+
+#[derive(Copy, Clone, Debug, PartialEq, Eq, Hash)]
+pub enum CommandKind {
+    Put,
+    PutWithTTL,
+    Delete,
+    UpdateWeight,
+    Shutdown,
+}
+
+#[derive(Copy, Clone, Debug, PartialEq, Eq, Hash)]
+pub enum WeightSite {
+    Add,
+    Update,
+    Delete,
+    Clear,
+}
+
+/// (key id, weight, estimated frequency) of a sampled key.
+pub type SampleEntry = (u64, Weight, FrequencyEstimate);
+
+#[derive(Clone, Debug)]
+pub enum Event {
+    Sent { uid: u64, kind: CommandKind },
+    SendFailed { uid: u64 },
+    ExecBegin { uid: u64, kind: CommandKind, key_id: u64 },
+    ExecEnd { uid: u64, status: CommandStatus },
+    Drained { uid: u64 },
+    Acked { uid: u64 },
+    AdmissionStart { key_id: u64, key_hash: KeyHash, weight: Weight, max_weight: Weight, weight_used: Weight },
+    AdmissionFit { key_id: u64 },
+    AdmissionOverweight { key_id: u64 },
+    AdmissionIncomingEstimate { key_id: u64, estimate: FrequencyEstimate, space_left: Weight },
+    AdmissionStep { key_id: u64, sample: Vec<SampleEntry>, victim: Option<SampleEntry>, evicted: bool, space_after: Weight },
+    AdmissionEnd { key_id: u64, status: CommandStatus },
+    WeightChanged { site: WeightSite, key_id: u64, new_total: Weight, max_weight: Weight },
+    SweepCompleted { now: SystemTime, shard: usize, evicted: Vec<u64> },
+    BatchApplied { len: usize },
+    ThreadStart { role: Role },
+    ThreadExit { role: Role, panicking: bool },
+}
+
+type PointFn = dyn Fn(Site) + Send + Sync;
+type SinkFn = dyn Fn(Event) + Send + Sync;
+
+static POINT_ON: AtomicBool = AtomicBool::new(false);
+static POINT: RwLock<Option<Arc<PointFn>>> = parking_lot::const_rwlock(None);
+static SINK_ON: AtomicBool = AtomicBool::new(false);
+static SINK: RwLock<Option<Arc<SinkFn>>> = parking_lot::const_rwlock(None);
+static NEXT_UID: AtomicU64 = AtomicU64::new(1);
+
+/// Installs (or removes) the process-wide schedule-point callback.
+pub fn set_point_callback(callback: Option<Arc<PointFn>>) {
+    let on = callback.is_some();
+    *POINT.write() = callback;
+    POINT_ON.store(on, Ordering::SeqCst);
+}
+
+/// Installs (or removes) the process-wide event sink.
+pub fn set_event_sink(sink: Option<Arc<SinkFn>>) {
+    let on = sink.is_some();
+    *SINK.write() = sink;
+    SINK_ON.store(on, Ordering::SeqCst);
+}
+
+#[inline]
+pub(crate) fn point(site: Site) {
+    if POINT_ON.load(Ordering::Relaxed) {
+        let callback = POINT.read().clone();
+        if let Some(callback) = callback {
+            callback(site);
+        }
+    }
+}
+
+#[inline]
+pub(crate) fn enabled() -> bool {
+    SINK_ON.load(Ordering::Relaxed)
+}
+
+#[inline]
+pub(crate) fn emit<MakeEvent: FnOnce() -> Event>(make_event: MakeEvent) {
+    if SINK_ON.load(Ordering::Relaxed) {
+        let sink = SINK.read().clone();
+        if let Some(sink) = sink {
+            sink(make_event());
+        }
+    }
+}
+
+pub(crate) fn next_uid() -> u64 {
+    NEXT_UID.fetch_add(1, Ordering::Relaxed)
+}
+
+/// Emits `ThreadStart` when created and `ThreadExit` (with the panicking flag) when dropped.
+pub(crate) struct ThreadGuard(Role);
+
+impl ThreadGuard {
+    pub(crate) fn new(role: Role) -> Self {
+        emit(|| Event::ThreadStart { role });
+        ThreadGuard(role)
+    }
+}
+
+impl Drop for ThreadGuard {
+    fn drop(&mut self) {
+        let role = self.0;
+        let panicking = std::thread::panicking();
+        emit(|| Event::ThreadExit { role, panicking });
+    }
+}
+
+/// A point-in-time view of the internal structures; meaningful at quiescent points only (the locks are
+/// taken one structure after the other).
+#[derive(Clone, Debug)]
+pub struct Snapshot<Key> {
+    pub weight_used: Weight,
+    pub max_weight: Weight,
+    /// (key id, key, key hash, charged weight)
+    pub charged: Vec<(u64, Key, KeyHash, Weight)>,
+    /// (key, key id, expiry, soft deleted)
+    pub stored: Vec<(Key, u64, Option<SystemTime>, bool)>,
+    /// (shard, key id, expiry)
+    pub ttl_index: Vec<(usize, u64, SystemTime)>,
+    pub buffered_hits: usize,
+    pub command_queue_len: usize,
+    pub access_queue_len: usize,
+}
+
+// ---------------------------------------------------------------------------------------------------------
+// Thin public wrappers over crate-private components, for component-level monitors.
+// ---------------------------------------------------------------------------------------------------------
+
+pub struct VerifAck(Arc<CommandAcknowledgement>);
+
+impl VerifAck {
+    pub fn new() -> Self { VerifAck(CommandAcknowledgement::new()) }
+    pub fn accepted() -> Self { VerifAck(CommandAcknowledgement::accepted()) }
+    pub fn done(&self, status: CommandStatus) { self.0.done(status); }
+    pub fn handle(&self) -> &CommandAcknowledgementHandle { self.0.handle() }
+    pub fn clone_ack(&self) -> VerifAck { VerifAck(self.0.clone()) }
+}
+
+impl Default for VerifAck {
+    fn default() -> Self { Self::new() }
+}
+
+pub struct VerifFrequencyCounter(FrequencyCounter);
+
+impl VerifFrequencyCounter {
+    pub fn new(counters: TotalCounters) -> Self { VerifFrequencyCounter(FrequencyCounter::new(counters)) }
+    pub fn increment(&mut self, key_hash: KeyHash) { self.0.increment(key_hash); }
+    pub fn estimate(&self, key_hash: KeyHash) -> FrequencyEstimate { self.0.estimate(key_hash) }
+    pub fn reset(&mut self) { self.0.reset(); }
+    pub fn clear(&mut self) { self.0.clear(); }
+    pub fn seeds(&self) -> [u64; 4] { self.0.verif_seeds() }
+    pub fn total_counters(&self) -> u64 { self.0.verif_total_counters() }
+    /// Unpacked counters, row by row.
+    pub fn matrix(&self) -> Vec<Vec<u8>> { self.0.verif_matrix() }
+}
+
+pub struct VerifDoorKeeper(DoorKeeper);
+
+impl VerifDoorKeeper {
+    pub fn new(capacity: usize, false_positive: f64) -> Self { VerifDoorKeeper(DoorKeeper::new(capacity, false_positive)) }
+    pub fn add_if_missing(&mut self, key: &KeyHash) -> bool { self.0.add_if_missing(key) }
+    pub fn has(&self, key: &KeyHash) -> bool { self.0.has(key) }
+    pub fn clear(&mut self) { self.0.clear(); }
+}
+
+pub struct VerifTinyLFU(TinyLFU);
+
+impl VerifTinyLFU {
+    pub fn new(counters: TotalCounters) -> Self { VerifTinyLFU(TinyLFU::new(counters)) }
+    pub fn increment_access(&mut self, key_hashes: Vec<KeyHash>) { self.0.increment_access(key_hashes); }
+    pub fn estimate(&self, key_hash: KeyHash) -> FrequencyEstimate { self.0.estimate(key_hash) }
+    pub fn clear(&mut self) { self.0.clear(); }
+    pub fn total_increments(&self) -> u64 { self.0.verif_total_increments() }
+    pub fn door_keeper_has(&self, key_hash: &KeyHash) -> bool { self.0.verif_door_keeper_has(key_hash) }
+    pub fn sketch_estimate(&self, key_hash: KeyHash) -> FrequencyEstimate { self.0.verif_sketch_estimate(key_hash) }
+    pub fn matrix(&self) -> Vec<Vec<u8>> { self.0.verif_matrix() }
+    pub fn seeds(&self) -> [u64; 4] { self.0.verif_seeds() }
+}
+
+/// `AdmissionPolicy<u64>` with its own statistics; keys are plain `u64`.
+pub struct VerifAdmissionPolicy {
+    policy: Arc<AdmissionPolicy<u64>>,
+    stats: Arc<ConcurrentStatsCounter>,
+}
+
+impl VerifAdmissionPolicy {
+    pub fn new(counters: TotalCounters, capacity: usize, shards: usize, total_cache_weight: Weight) -> Self {
+        let stats = Arc::new(ConcurrentStatsCounter::new());
+        VerifAdmissionPolicy {
+            policy: Arc::new(AdmissionPolicy::new(counters, CacheWeightConfig::new(capacity, shards, total_cache_weight), stats.clone())),
+            stats,
+        }
+    }
+
+    /// Runs the admission decision for (`key`, `key_id`, `key_hash`, `weight`); `delete_hook` is called with the key of every victim.
+    pub fn maybe_add<DeleteHook: Fn(u64)>(&self, key: u64, key_id: u64, key_hash: KeyHash, weight: Weight, delete_hook: &DeleteHook) -> CommandStatus {
+        self.policy.maybe_add(&KeyDescription::new(key, key_id, key_hash, weight), delete_hook)
+    }
+
+    /// Hands a full buffer of key hashes to the policy the way the pool does (non-blocking).
+    pub fn accept(&self, key_hashes: Vec<KeyHash>) { self.policy.accept(BufferEvent::Full(key_hashes)); }
+    pub fn estimate(&self, key_hash: KeyHash) -> FrequencyEstimate { self.policy.estimate(key_hash) }
+    pub fn update(&self, key_id: u64, weight: Weight) { self.policy.update(&key_id, weight); }
+    pub fn delete(&self, key_id: u64) { self.policy.delete(&key_id); }
+    pub fn contains(&self, key_id: u64) -> bool { self.policy.contains(&key_id) }
+    pub fn weight_of(&self, key_id: u64) -> Option<Weight> { self.policy.weight_of(&key_id) }
+    pub fn weight_used(&self) -> Weight { self.policy.weight_used() }
+    pub fn charged(&self) -> Vec<(u64, u64, KeyHash, Weight)> { self.policy.verif_charged() }
+    pub fn access_queue_len(&self) -> usize { self.policy.verif_access_queue_len() }
+    pub fn access_added(&self) -> u64 { self.stats.access_added() }
+    pub fn access_dropped(&self) -> u64 { self.stats.access_dropped() }
+    pub fn shutdown(&self) { self.policy.shutdown(); }
+}
+
+/// A buffer consumer whose behaviour is supplied by the harness.
+pub struct VerifConsumer {
+    on_full: Box<dyn Fn(Vec<KeyHash>) + Send + Sync>,
+}
+
+impl BufferConsumer for VerifConsumer {
+    fn accept(&self, event: BufferEvent) {
+        if let BufferEvent::Full(key_hashes) = event {
+            (self.on_full)(key_hashes);
+        }
+    }
+}
+
+pub struct VerifPool(Pool<VerifConsumer>);
+
+impl VerifPool {
+    pub fn new(pool_size: usize, buffer_size: usize, on_full: Box<dyn Fn(Vec<KeyHash>) + Send + Sync>) -> Self {
+        VerifPool(Pool::new(PoolSize(pool_size), BufferSize(buffer_size), Arc::new(VerifConsumer { on_full })))
+    }
+    pub fn add(&self, key_hash: KeyHash) { self.0.add(key_hash); }
+    pub fn buffered(&self) -> Vec<Vec<KeyHash>> { self.0.verif_buffered() }
+}
+
+pub struct VerifTTLTicker(Arc<TTLTicker>);
+
+impl VerifTTLTicker {
+    pub fn new<EvictHook>(shards: usize, tick: std::time::Duration, clock: ClockType, evict_hook: EvictHook) -> Self
+        where EvictHook: Fn(&u64) + Send + Sync + 'static {
+        VerifTTLTicker(TTLTicker::new(TTLConfig::new(shards, tick, clock), evict_hook))
+    }
+    pub fn put(&self, key_id: u64, expire_after: SystemTime) { self.0.put(key_id, expire_after); }
+    pub fn update(&self, key_id: u64, old_expiry: &SystemTime, new_expiry: SystemTime) { self.0.update(key_id, old_expiry, new_expiry); }
+    pub fn delete(&self, key_id: &u64, expire_after: &SystemTime) { self.0.delete(key_id, expire_after); }
+    pub fn get(&self, key_id: &u64, expire_after: &SystemTime) -> Option<SystemTime> { self.0.get(key_id, expire_after) }
+    pub fn entries(&self) -> Vec<(usize, u64, SystemTime)> { self.0.verif_entries() }
+    pub fn shutdown(&self) { self.0.shutdown(); }
+}
+
+pub(crate) fn key_kind<Key: Hash + Eq + Clone, Value>(command: &crate::cache::command::CommandType<Key, Value>) -> (CommandKind, u64) {
+    use crate::cache::command::CommandType;
+    match command {
+        CommandType::Put(key_description, _) => (CommandKind::Put, key_description.id),
+        CommandType::PutWithTTL(key_description, _, _) => (CommandKind::PutWithTTL, key_description.id),
+        CommandType::Delete(_) => (CommandKind::Delete, 0),
+        CommandType::UpdateWeight(key_id, _) => (CommandKind::UpdateWeight, *key_id),
+        CommandType::Shutdown => (CommandKind::Shutdown, 0),
+    }
+}
+
+pub use crate::cache::lfu::frequency_counter::VerifRow;
